@@ -12,6 +12,7 @@ var (
 	EnterFn func(site string)
 	ExitFn  func()
 	EvFn    func(site, detail string)
+	EvPFn   func(site string, p any, detail string)
 	PollFn  func(n int) []int
 	OrderFn func(n int, less func(i, j int) bool, swap func(i, j int))
 )
@@ -39,6 +40,11 @@ func Exit() {
 func Ev(site, detail string) {
 	if f := EvFn; f != nil {
 		f(site, detail)
+	}
+}
+func EvP(site string, p any, detail string) {
+	if f := EvPFn; f != nil {
+		f(site, p, detail)
 	}
 }
 func Poll(n int) []int {
